@@ -1,7 +1,494 @@
 import StoneVerif.Model.IrCheck
 /-! Helper lemmas for C10 (compile-time checks of defaults and examples vs the runtime model). -/
 set_option linter.unusedSimpArgs false
+set_option linter.unusedVariables false
 namespace StoneVerif.IrCheck
 open StoneVerif.Rt
+
+/-! ## validators and flags -/
+
+/-- values a default can be: not a list, tuple or dict -/
+def LeafV (v : PyVal) : Prop := (∀ xs, v ≠ .list xs) ∧ (∀ xs, v ≠ .tuple xs) ∧ (∀ xs, v ≠ .dict xs)
+
+theorem leafV_none : LeafV .none := ⟨by simp, by simp, by simp⟩
+theorem leafV_bool (b) : LeafV (.bool b) := ⟨by simp, by simp, by simp⟩
+theorem leafV_int (n) : LeafV (.int n) := ⟨by simp, by simp, by simp⟩
+theorem leafV_flt (x) : LeafV (.flt x) := ⟨by simp, by simp, by simp⟩
+theorem leafV_str (s) : LeafV (.str s) := ⟨by simp, by simp, by simp⟩
+theorem leafV_union (c t p) : LeafV (.union c t p) := ⟨by simp, by simp, by simp⟩
+
+/-- On leaf values a validator looks at its flags only through `nullable`. -/
+theorem validate_withFlags (E : Ext) (env : Env) (t : PTy) (fl : Flags) (v : PyVal) (hv : LeafV v)
+    (hfl : fl.nullable = t.flags.nullable) : validate E env (t.withFlags fl) v = validate E env t v := by
+  obtain ⟨h1, h2, h3⟩ := hv
+  cases v <;> simp at h1 h2 h3 <;> cases t <;> simp only [PTy.flags] at hfl <;>
+    simp [validate, PTy.withFlags, PTy.flags, hfl]
+
+theorem flags_withFlags (t : PTy) (fl : Flags) : (t.withFlags fl).flags = fl := by
+  cases t <;> rfl
+
+theorem setRedact_nullable (r : Option Redactor) (t : PTy) : (setRedact r t).flags.nullable = t.flags.nullable := by
+  cases r with
+  | none => rfl
+  | some r =>
+    simp only [setRedact]
+    split <;> simp [flags_withFlags, *]
+
+theorem withFlags_withFlags (t : PTy) (a b : Flags) : (t.withFlags a).withFlags b = t.withFlags b := by
+  cases t <;> rfl
+
+theorem withFlags_self (t : PTy) : t.withFlags t.flags = t := by
+  cases t <;> rfl
+
+theorem validate_setRedact (E : Ext) (env : Env) (r : Option Redactor) (t : PTy) (v : PyVal) (hv : LeafV v) :
+    validate E env (setRedact r t) v = validate E env t v := by
+  cases r with
+  | none => rfl
+  | some r =>
+    simp only [setRedact]
+    split
+    · exact validate_withFlags E env t _ v hv (by simp [*])
+    · rename_i h
+      exact validate_withFlags E env t _ v hv (by simp at h; simp [h])
+
+/-- a nullable validator accepts None -/
+theorem validate_nullable_none (E : Ext) (env : Env) (t : PTy) (h : t.flags.nullable = true) :
+    validate E env t .none = .ok .none := by
+  cases t <;> simp only [PTy.flags] at h <;> simp [validate, PTy.flags, h]
+
+/-- a nullable validator treats a value other than None like the wrapped validator -/
+theorem validate_nullable_some (E : Ext) (env : Env) (t : PTy) (fl : Flags) (v : PyVal) (hv : LeafV v) (hn : v ≠ .none) :
+    validate E env (t.withFlags fl) v = validate E env (t.withFlags {}) v := by
+  obtain ⟨h1, h2, h3⟩ := hv
+  cases v <;> simp at h1 h2 h3 hn <;> cases t <;> simp [validate, PTy.withFlags, PTy.flags]
+
+/-! ## results of the compile-time checks -/
+
+@[simp] theorem ite_error_eq_ok {α} {c : Prop} [Decidable c] {e : CheckErr} {x : CR α} {a : α} :
+    ((if c then Except.error e else x) = Except.ok a) ↔ (¬c ∧ x = Except.ok a) := by
+  by_cases h : c <;> simp [h]
+
+@[simp] theorem invalid_ne_ok {α} (h : String) (a : α) : (invalid h : CR α) ≠ .ok a := by simp [invalid]
+@[simp] theorem ccrash_ne_ok {α} (h : String) (a : α) : (ccrash h : CR α) ≠ .ok a := by simp [ccrash]
+
+/-! ## the width tables -/
+
+theorem irIntBounds_eq (cls : String) : irIntBounds cls = intDefaults cls := by
+  have h : Tables.irIntBounds = Tables.rtIntBounds := by decide
+  simp [irIntBounds, intDefaults, h]
+
+theorem irFloatBounds_eq (cls : String) : irFloatBounds cls = floatDefaults cls := by
+  have h : Tables.irFloatBounds = Tables.rtFloatBounds := by decide
+  simp [irFloatBounds, floatDefaults, h]
+
+/-! ## one type at a time: what `check` accepts, the generated validator accepts -/
+
+theorem check_bool_valid (E : Ext) (C : CExt) (us : List CUnion) (env : Env) (lit : Lit) (v : PyVal)
+    (hc : check E C us .bool lit = .ok ()) (hp : pyOfStored us .bool lit = some v) :
+    validate E env (.bool {}) v = .ok v := by
+  cases lit <;> simp [check, invalid] at hc
+  simp [pyOfStored] at hp
+  subst hp
+  simp [validate, PTy.flags]
+
+theorem checkIntVal_ok {cls : String} {mn mx : Option Int} {n : Int} (h : checkIntVal cls mn mx n = .ok ()) :
+    ∃ lo hi, intDefaults cls = some (lo, hi) ∧ mn.getD lo ≤ n ∧ n ≤ mx.getD hi := by
+  unfold checkIntVal at h
+  rw [irIntBounds_eq] at h
+  cases hb : intDefaults cls with
+  | none => simp [hb, ccrash] at h
+  | some b =>
+    obtain ⟨lo, hi⟩ := b
+    simp only [hb] at h
+    refine ⟨lo, hi, rfl, ?_⟩
+    cases mn <;> cases mx <;> simp [invalid] at h ⊢ <;> omega
+
+theorem check_int_valid (E : Ext) (C : CExt) (us : List CUnion) (env : Env) (cls : String) (mn mx : Option Int)
+    (lit : Lit) (vt : PTy) (v : PyVal)
+    (hc : check E C us (.int cls mn mx) lit = .ok ()) (hv : validatorOf (.int cls mn mx) = some vt)
+    (hp : pyOfStored us (.int cls mn mx) lit = some v) :
+    validate E env vt v = .ok v := by
+  cases lit <;> simp [check, invalid] at hc
+  · -- bool
+    rename_i b
+    obtain ⟨lo, hi, hb, h1, h2⟩ := checkIntVal_ok hc
+    simp [pyOfStored] at hp
+    subst hp
+    simp [validatorOf, hb] at hv
+    subst hv
+    cases b <;> simp [validate, PTy.flags, intOf] at h1 h2 ⊢ <;> omega
+  · rename_i n
+    obtain ⟨lo, hi, hb, h1, h2⟩ := checkIntVal_ok hc
+    simp [pyOfStored] at hp
+    subst hp
+    simp [validatorOf, hb] at hv
+    subst hv
+    simp [validate, PTy.flags, intOf, h1, h2]
+
+/-- what `_BoundedFloat.check` establishes, in the form the generated validator tests it -/
+theorem checkFloatVal_ok {E : Ext} {cls : String} {mn mx : Option FBits} {x : FBits}
+    (h : checkFloatVal E cls mn mx x = .ok ()) :
+    ∃ tlo thi, floatDefaults cls = some (tlo, thi) ∧ E.fltIsNan x = false ∧ E.fltIsInf x = false ∧
+      (match (match mn with | some m => some m | none => tlo) with | some l => E.fltLt x l | none => false) = false ∧
+      (match (match mx with | some m => some m | none => thi) with | some u => E.fltLt u x | none => false) = false := by
+  unfold checkFloatVal at h
+  rw [irFloatBounds_eq] at h
+  cases hb : floatDefaults cls with
+  | none => simp [hb, invalid, ccrash] at h
+  | some b =>
+    obtain ⟨tlo, thi⟩ := b
+    simp only [hb] at h
+    refine ⟨tlo, thi, rfl, ?_⟩
+    cases mn <;> cases mx <;> cases tlo <;> cases thi <;> simp_all [invalid, ccrash]
+
+theorem validate_float_ok (E : Ext) (env : Env) (cls : String) (lo hi : Option FBits) (v : PyVal) (x : FBits)
+    (hf : fltOf E v = some (some x)) (hnan : E.fltIsNan x = false) (hinf : E.fltIsInf x = false)
+    (hlo : (match lo with | some l => E.fltLt x l | none => false) = false)
+    (hhi : (match hi with | some u => E.fltLt u x | none => false) = false) :
+    validate E env (.float {} cls lo hi) v = .ok (.flt x) := by
+  cases v <;> simp [fltOf] at hf <;> cases lo <;> cases hi <;> simp_all [validate, PTy.flags, fltOf]
+
+theorem check_float_valid (E : Ext) (C : CExt) (us : List CUnion) (env : Env) (cls : String) (mn mx : Option FBits)
+    (lit : Lit) (vt : PTy) (v : PyVal)
+    (hc : check E C us (.float cls mn mx) lit = .ok ()) (hv : validatorOf (.float cls mn mx) = some vt)
+    (hp : pyOfStored us (.float cls mn mx) lit = some v) :
+    ∃ x, fltOf E v = some (some x) ∧ validate E env vt v = .ok (.flt x) := by
+  cases lit <;> simp [check] at hc
+  · -- bool literal
+    rename_i b
+    cases hx : E.fltOfInt (if b = true then 1 else 0) with
+    | none => simp [hx] at hc
+    | some x =>
+      simp [hx] at hc
+      obtain ⟨tlo, thi, hb, h1, h2, h3, h4⟩ := checkFloatVal_ok hc
+      simp [pyOfStored] at hp
+      subst hp
+      simp [validatorOf, hb] at hv
+      subst hv
+      refine ⟨x, by simp [fltOf, hx], ?_⟩
+      exact validate_float_ok E env cls _ _ _ x (by simp [fltOf, hx]) h1 h2 h3 h4
+  · -- integer literal
+    rename_i n
+    cases hx : E.fltOfInt n with
+    | none => simp [hx] at hc
+    | some x =>
+      simp [hx] at hc
+      obtain ⟨tlo, thi, hb, h1, h2, h3, h4⟩ := checkFloatVal_ok hc
+      simp [pyOfStored] at hp
+      subst hp
+      simp [validatorOf, hb] at hv
+      subst hv
+      refine ⟨x, by simp [fltOf, hx], ?_⟩
+      exact validate_float_ok E env cls _ _ _ x (by simp [fltOf, hx]) h1 h2 h3 h4
+  · -- float literal
+    rename_i x
+    obtain ⟨tlo, thi, hb, h1, h2, h3, h4⟩ := checkFloatVal_ok hc
+    simp [pyOfStored] at hp
+    subst hp
+    simp [validatorOf, hb] at hv
+    subst hv
+    refine ⟨x, by simp [fltOf], ?_⟩
+    exact validate_float_ok E env cls _ _ _ x (by simp [fltOf]) h1 h2 h3 h4
+
+theorem check_str_valid (E : Ext) (C : CExt) (us : List CUnion) (env : Env) (a b : Option Nat) (p : Option String)
+    (lit : Lit) (v : PyVal)
+    (hpat : ∀ q s, p = some q → C.prefixMatch q s = true → E.patMatch q s = true)
+    (hc : check E C us (.str a b p) lit = .ok ()) (hp : pyOfStored us (.str a b p) lit = some v) :
+    validate E env (.str {} a b p) v = .ok v := by
+  cases lit <;> simp only [check] at hc <;> (try simp at hc)
+  rename_i s
+  simp [pyOfStored] at hp
+  subst hp
+  cases hge : geOpt b s.length <;> cases hle : leOpt a s.length <;> simp [hge, hle] at hc
+  cases p with
+  | none => simp [validate, PTy.flags, hge, hle]
+  | some q =>
+    simp at hc
+    simp [validate, PTy.flags, hge, hle]
+    intro hq hm
+    have := hpat q s rfl (hc hq)
+    simp [this] at hm
+
+theorem check_void_valid (E : Ext) (C : CExt) (us : List CUnion) (env : Env) (lit : Lit) (v : PyVal)
+    (hc : check E C us .void lit = .ok ()) (hp : pyOfStored us .void lit = some v) :
+    validate E env (.void {}) v = .ok v := by
+  cases lit <;> simp [check] at hc
+  simp [pyOfStored] at hp
+  subst hp
+  simp [validate, PTy.flags]
+
+/-! ## tag defaults -/
+
+theorem declClass_mem {u : CUnion} {tag d : String} (h : u.declClass tag = some d) : d ∈ u.chain.map (·.1) := by
+  unfold CUnion.declClass at h
+  cases hf : u.chain.find? (fun x => x.2.any (·.name == tag)) with
+  | none => simp [hf] at h
+  | some e =>
+    simp [hf] at h
+    subst h
+    exact List.mem_map.2 ⟨e, List.mem_of_find?_eq_some hf, rfl⟩
+
+/-- the ready instance `<Declaring class>('<tag>')` is an instance the field's union validator accepts -/
+theorem tag_instance_typeOk {us : List CUnion} {env : Env} (hU : unionsAgree us env = true) {cls tag d : String} {u : CUnion}
+    (hu : us.find? (·.cls == cls) = some u) (hd : u.declClass tag = some d) :
+    unionTypeOk env cls (.union d tag .none) = true := by
+  have hmem : u ∈ us := List.mem_of_find?_eq_some hu
+  have hcls : u.cls = cls := by
+    have := List.find?_some hu
+    simpa using this
+  have hag := (List.all_eq_true.1 hU) u hmem
+  simp only [hcls] at hag
+  cases he : env.union? cls with
+  | none => simp [he] at hag
+  | some ud =>
+    simp [he] at hag
+    simp [unionTypeOk, Env.unionSubclass, he, UnionDef.ancestors, hag]
+    have := declClass_mem hd
+    simpa using this
+
+theorem check_union_valid (E : Ext) (C : CExt) (us : List CUnion) (env : Env) (hU : unionsAgree us env = true)
+    (cls : String) (lit : Lit) (v : PyVal)
+    (hc : check E C us (.union cls) lit = .ok ()) (hp : pyOfStored us (.union cls) lit = some v) :
+    validate E env (.union {} cls) v = .ok v ∧ validateTypeOnly env (.union {} cls) v = .ok () := by
+  cases lit <;> simp [check] at hc
+  rename_i tag
+  cases hu : us.find? (·.cls == cls) with
+  | none => simp [pyOfStored, unionOfTy, hu] at hp
+  | some u =>
+    cases hd : u.declClass tag with
+    | none => simp [pyOfStored, unionOfTy, hu, hd] at hp
+    | some d =>
+      simp [pyOfStored, unionOfTy, hu, hd] at hp
+      subst hp
+      have hok := tag_instance_typeOk hU hu hd
+      simp [validate, validateTypeOnly, PTy.flags, hok]
+
+/-! ## every type -/
+
+theorem pyOfStored_tagref {us : List CUnion} {t : IrTy} {tag : String} {v : PyVal} (h : pyOfStored us t (.tagref tag) = some v) :
+    ∃ c u d, unionOfTy t = some c ∧ us.find? (·.cls == c) = some u ∧ u.declClass tag = some d ∧ v = .union d tag .none := by
+  simp only [pyOfStored] at h
+  cases hc : unionOfTy t with
+  | none => simp [hc] at h
+  | some c =>
+    simp only [hc] at h
+    cases hu : us.find? (·.cls == c) with
+    | none => simp [hu] at h
+    | some u =>
+      cases hd : u.declClass tag with
+      | none => simp [hu, hd] at h
+      | some d =>
+        simp [hu, hd] at h
+        exact ⟨c, u, d, rfl, hu, hd, h.symm⟩
+
+theorem pyOfStored_leaf {us : List CUnion} {t : IrTy} {lit : Lit} {v : PyVal} (h : pyOfStored us t lit = some v) : LeafV v := by
+  cases lit <;> (try simp [pyOfStored] at h)
+  · subst h; exact leafV_none
+  · subst h; exact leafV_bool _
+  · subst h; exact leafV_int _
+  · subst h; exact leafV_flt _
+  · subst h; exact leafV_str _
+  · obtain ⟨c, u, d, _, _, _, rfl⟩ := pyOfStored_tagref h
+    exact leafV_union _ _ _
+
+theorem pyOfStored_alias {us : List CUnion} {n : String} {r : Option Redactor} {t : IrTy} {lit : Lit} :
+    pyOfStored us (.alias n r t) lit = pyOfStored us t lit := by
+  cases lit <;> simp [pyOfStored, unionOfTy]
+
+theorem pyOfStored_none_iff {us : List CUnion} {t : IrTy} {lit : Lit} (h : pyOfStored us t lit = some .none) : lit = .null := by
+  cases lit <;> (try simp [pyOfStored] at h ⊢)
+  obtain ⟨c, u, d, _, _, _, h⟩ := pyOfStored_tagref h
+  cases h
+
+/-- a literal that is not a tag reference is the same Python value whatever the type -/
+theorem pyOfStored_nontag {us : List CUnion} {t t' : IrTy} {lit : Lit} (h : ∀ tag, lit ≠ .tagref tag) :
+    pyOfStored us t lit = pyOfStored us t' lit := by
+  cases lit <;> simp [pyOfStored] at h ⊢
+
+theorem acceptedAs_refl (E : Ext) (v : PyVal) : acceptedAs E v v := Or.inl rfl
+
+/-- Every literal that `data_type.check` accepts is a value the validator generated for that type accepts
+(and returns unchanged, a number in a float position as the float), provided the type involves no
+Timestamp / Bytes and the compile-time pattern test implies the runtime one. -/
+theorem check_valid (E : Ext) (C : CExt) (us : List CUnion) (env : Env) (hU : unionsAgree us env = true) :
+    ∀ (t : IrTy) (lit : Lit) (vt : PTy) (v : PyVal),
+      noTextual t = true →
+      (∀ p s, patternOf t = some p → C.prefixMatch p s = true → E.patMatch p s = true) →
+      check E C us t lit = .ok () → validatorOf t = some vt → pyOfStored us t lit = some v →
+      ∃ v', validate E env vt v = .ok v' ∧ acceptedAs E v v' := by
+  intro t
+  induction t with
+  | bool =>
+    intro lit vt v _ _ hc hv hp
+    simp [validatorOf] at hv; subst hv
+    exact ⟨v, check_bool_valid E C us env lit v hc hp, acceptedAs_refl E v⟩
+  | int cls mn mx =>
+    intro lit vt v _ _ hc hv hp
+    exact ⟨v, check_int_valid E C us env cls mn mx lit vt v hc hv hp, acceptedAs_refl E v⟩
+  | float cls mn mx =>
+    intro lit vt v _ _ hc hv hp
+    obtain ⟨x, hx, hval⟩ := check_float_valid E C us env cls mn mx lit vt v hc hv hp
+    exact ⟨.flt x, hval, Or.inr ⟨x, hx, rfl⟩⟩
+  | str a b p =>
+    intro lit vt v _ hpat hc hv hp
+    simp [validatorOf] at hv; subst hv
+    refine ⟨v, check_str_valid E C us env a b p lit v ?_ hc hp, acceptedAs_refl E v⟩
+    intro q s hq
+    exact hpat q s (by simp [patternOf, hq])
+  | bytes => intro lit vt v hn; simp [noTextual] at hn
+  | ts f => intro lit vt v hn; simp [noTextual] at hn
+  | void =>
+    intro lit vt v _ _ hc hv hp
+    simp [validatorOf] at hv; subst hv
+    exact ⟨v, check_void_valid E C us env lit v hc hp, acceptedAs_refl E v⟩
+  | list t a b _ => intro lit vt v _ _ hc; simp [check] at hc
+  | map k w _ _ => intro lit vt v _ _ hc; simp [check] at hc
+  | struct c s => intro lit vt v _ _ hc; simp [check] at hc
+  | union cls =>
+    intro lit vt v _ _ hc hv hp
+    simp [validatorOf] at hv; subst hv
+    exact ⟨v, (check_union_valid E C us env hU cls lit v hc hp).1, acceptedAs_refl E v⟩
+  | nullable t ih =>
+    intro lit vt v hn hpat hc hv hp
+    -- the validator: the inner one with the nullable flag
+    simp only [validatorOf] at hv
+    cases hvt : validatorOf t with
+    | none => simp [hvt] at hv
+    | some vt0 =>
+      simp only [hvt] at hv
+      have hvt' : vt = vt0.withFlags { vt0.flags with nullable := true } := by
+        split at hv
+        · cases hv
+        · split at hv
+          · cases hv
+          · cases hv; rfl
+      subst hvt'
+      by_cases hnull : lit = .null
+      · subst hnull
+        simp [pyOfStored] at hp; subst hp
+        exact ⟨.none, validate_nullable_none E env _ (by simp [flags_withFlags]), acceptedAs_refl E _⟩
+      · have hc' : check E C us t lit = .ok () := by
+          cases lit <;> simp [check] at hc hnull ⊢ <;> exact hc
+        have hnt : ∀ tag, lit ≠ .tagref tag := by
+          intro tag h; subst h; simp [pyOfStored, unionOfTy] at hp
+        have hp' : pyOfStored us t lit = some v := by rw [← hp]; exact pyOfStored_nontag hnt
+        obtain ⟨v', h1, h2⟩ := ih lit vt0 v (by simpa [noTextual] using hn)
+          (fun p s hq => hpat p s (by simpa [patternOf] using hq)) hc' hvt hp'
+        have hleaf := pyOfStored_leaf hp
+        have hvn : v ≠ .none := by
+          intro h; subst h; exact hnull (pyOfStored_none_iff hp)
+        refine ⟨v', ?_, h2⟩
+        rw [validate_nullable_some E env vt0 _ v hleaf hvn, ← validate_nullable_some E env vt0 vt0.flags v hleaf hvn,
+          withFlags_self]
+        exact h1
+  | alias n r t ih =>
+    intro lit vt v hn hpat hc hv hp
+    simp only [validatorOf] at hv
+    cases hvt : validatorOf t with
+    | none => simp [hvt] at hv
+    | some vt0 =>
+      simp [hvt] at hv; subst hv
+      rw [pyOfStored_alias] at hp
+      obtain ⟨v', h1, h2⟩ := ih lit vt0 v (by simpa [noTextual] using hn)
+        (fun p s hq => hpat p s (by simpa [patternOf] using hq)) (by simpa [check] using hc) hvt hp
+      exact ⟨v', by rw [validate_setRedact E env r vt0 v (pyOfStored_leaf hp)]; exact h1, h2⟩
+
+/-! ## from `fieldDefault` to `check` -/
+
+theorem match_check_ok {r : CR Unit} {l d : Lit}
+    (h : r.map (fun _ => l) = .ok d) : r = .ok () ∧ l = d := by
+  cases r with
+  | error e => simp [Except.map] at h
+  | ok u => cases u; simp [Except.map] at h; exact ⟨rfl, h⟩
+
+theorem match_fltOfInt_ok {o : Option FBits} {x : FBits}
+    (h : (match o with | some x => (.ok x : CR FBits) | none => ccrash "OverflowError") = .ok x) : o = some x := by
+  cases o <;> simp [ccrash] at h ⊢; exact h
+
+/-- the stored default passed `data_type.check` -/
+theorem fieldDefault_check {E : Ext} {C : CExt} {us : List CUnion} {t : IrTy} {lit d : Lit}
+    (h : fieldDefault E C us t lit = .ok d) : check E C us t d = .ok () := by
+  cases t
+  case void => simp [fieldDefault] at h
+  case nullable => simp [fieldDefault] at h
+  case float cls mn mx =>
+    simp only [fieldDefault] at h
+    cases lit with
+    | null => simp [ccrash] at h
+    | tagref _ => simp [ccrash] at h
+    | flt x =>
+      obtain ⟨h1, h2⟩ := match_check_ok h
+      subst h2; exact h1
+    | int n =>
+      cases hx : E.fltOfInt n with
+      | none => simp [hx, ccrash] at h
+      | some x =>
+        simp only [hx] at h
+        obtain ⟨h1, h2⟩ := match_check_ok h
+        subst h2; exact h1
+    | bool b =>
+      cases hx : E.fltOfInt (if b = true then 1 else 0) with
+      | none => simp [hx, ccrash] at h
+      | some x =>
+        simp only [hx] at h
+        obtain ⟨h1, h2⟩ := match_check_ok h
+        subst h2; exact h1
+    | str s =>
+      cases hx : C.fltOfStr s with
+      | none => simp [hx, invalid] at h
+      | some x =>
+        simp only [hx] at h
+        obtain ⟨h1, h2⟩ := match_check_ok h
+        subst h2; exact h1
+  all_goals
+    simp only [fieldDefault] at h
+    split at h
+    · simp [invalid] at h
+    · obtain ⟨h1, h2⟩ := match_check_ok h
+      subst h2; exact h1
+
+/-- a field that carries a default is not nullable (neither literally nor through aliases) and not Void -/
+theorem fieldDefault_not_nullable {E : Ext} {C : CExt} {us : List CUnion} {t : IrTy} {lit d : Lit}
+    (h : fieldDefault E C us t lit = .ok d) : t.isNullableLit = false := by
+  cases t <;> simp [fieldDefault, invalid, IrTy.isNullableLit] at h ⊢
+
+/-! ## `validate_type_only` and assignment -/
+
+theorem validateTypeOnly_union_setRedact (env : Env) (r : Option Redactor) (cls : String) (v : PyVal) :
+    validateTypeOnly env (setRedact r (.union {} cls)) v = validateTypeOnly env (.union {} cls) v := by
+  cases r with
+  | none => rfl
+  | some r => simp [setRedact, PTy.flags, PTy.withFlags, validateTypeOnly]
+
+/-! ## the generated field table -/
+
+theorem fieldDefOfC_inv {us : List CUnion} {cf : CField} {fd : FieldDef} (h : fieldDefOfC us cf = some fd) :
+    ∃ vt, validatorOf cf.ty = some vt ∧ fd.name = cf.name ∧ fd.ty = vt ∧ fd.attrNullable = cf.ty.isNullableLit ∧
+      fd.attrUserDefined = cf.ty.isUserDefinedLit ∧ fd.omitted = cf.omitted ∧
+      (match cf.dflt with
+       | none => fd.dflt = none
+       | some l => ∃ v, pyOfStored us cf.ty l = some v ∧ fd.dflt = some v) := by
+  unfold fieldDefOfC at h
+  cases hvt : validatorOf cf.ty with
+  | none => simp [hvt] at h
+  | some vt =>
+    cases hd : cf.dflt with
+    | none =>
+      simp [hvt, hd] at h
+      subst h
+      exact ⟨vt, rfl, rfl, rfl, rfl, rfl, rfl, by simp⟩
+    | some l =>
+      cases hp : pyOfStored us cf.ty l with
+      | none => simp [hvt, hd, hp] at h
+      | some v =>
+        simp [hvt, hd, hp] at h
+        subst h
+        exact ⟨vt, rfl, rfl, rfl, rfl, rfl, rfl, ⟨v, hp, rfl⟩⟩
+
+/-- the only user-defined field type a default can be given to is a union written directly -/
+theorem check_userDefined_union {E : Ext} {C : CExt} {us : List CUnion} {t : IrTy} {d : Lit}
+    (hc : check E C us t d = .ok ()) (hnn : t.isNullableLit = false) (hu : t.isUserDefinedLit = true) :
+    ∃ cls, t = .union cls := by
+  cases t <;> simp [IrTy.isUserDefinedLit, IrTy.isNullableLit, check] at hu hnn hc ⊢
 
 end StoneVerif.IrCheck
